@@ -372,6 +372,7 @@ fn cmd_run(args: &Args) -> i32 {
             minimised: false,
             original_ops: h.ops.len(),
             note: "hang or crash: the last operation did not return (watchdog) or killed the process executing it".to_string(),
+            slice: None,
         };
         let mut rf = rf;
         replay_path = format!("{}/replays/{}-{}-{}.json", root, id, seed, rf.run);
@@ -399,6 +400,7 @@ fn cmd_run(args: &Args) -> i32 {
                 minimised: false,
                 original_ops: fv.ops.len(),
                 note: String::new(),
+                slice: None,
             };
             minimise_children(&mut rf, &format!("{}/{}-cand.json", work, id), 120);
             (rf.world, rf.ops, rf.violation)
@@ -416,6 +418,7 @@ fn cmd_run(args: &Args) -> i32 {
             minimised: true,
             original_ops: fv.ops.len(),
             note: String::new(),
+            slice: None,
         };
         std::fs::write(&replay_path, serde_json::to_string_pretty(&rf).unwrap()).expect("write replay");
         // the minimised file must reproduce in a fresh process
@@ -441,13 +444,30 @@ fn cmd_run(args: &Args) -> i32 {
                     minimised: false,
                     original_ops: fv.ops.len(),
                     note: "minimised with one child process per candidate (in-process replays were not independent of each other: the system under test keeps hidden process-wide state)".to_string(),
+                    slice: None,
                 };
                 std::fs::write(&replay_path, serde_json::to_string_pretty(&lit).unwrap()).expect("write replay");
                 let st2 = wrapped_self().arg("replay").arg(&replay_path).arg("--quiet").arg("1").status();
                 if !matches!(st2.map(|s| s.code()), Ok(Some(1))) {
-                    eprintln!("harness error: neither the minimised nor the literal history of run {} reproduces in a fresh process ({:?}); the violation depends on what earlier runs left in the worker process", fv.run, other);
+                    // The run depends on what EARLIER runs of its worker left in the process (a
+                    // static inside the system under test). The exactly repeatable execution is
+                    // then the worker's slice of run indices up to this run, in one process.
+                    lit.slice = Some((fv.run % jobs, jobs));
+                    lit.note = "the violation depends on process-wide state left by earlier runs: the replay re-executes the run indices offset, offset+stride, .. up to this run in one process (seeded regeneration)".to_string();
+                    std::fs::write(&replay_path, serde_json::to_string_pretty(&lit).unwrap()).expect("write replay");
+                    let st3 = wrapped_self().arg("replay").arg(&replay_path).arg("--quiet").arg("1").status();
+                    if !matches!(st3.map(|s| s.code()), Ok(Some(1))) {
+                        eprintln!("harness error: run {} violates the property inside its worker, but neither its history alone nor the worker's slice up to it reproduces in a fresh process ({:?})", fv.run, other);
+                        write_evidence(prop.as_ref(), tier, seed, &total, hashes.len() as u64, start.elapsed().as_secs_f64(), wall_search, 1, &known, jobs);
+                        return 2;
+                    }
+                    let (v, o) = (lit.violation.clone(), lit.ops.clone());
+                    println!("VIOLATION property={} replay={}", id, replay_path);
+                    println!("  signature={} step={} ops={} (history of run {}; reproduces only after the {} earlier runs of its worker slice)", v.signature, v.step, o.len(), fv.run, fv.run / jobs);
+                    println!("  expected: {}", v.expected);
+                    println!("  observed: {}", v.observed);
                     write_evidence(prop.as_ref(), tier, seed, &total, hashes.len() as u64, start.elapsed().as_secs_f64(), wall_search, 1, &known, jobs);
-                    return 2;
+                    return 1;
                 }
                 if fv.violation.step < fv.ops.len() {
                     minimise_children(&mut lit, &format!("{}/{}-cand.json", work, id), 80);
@@ -724,6 +744,33 @@ fn cmd_replay(args: &Args) -> i32 {
         eprintln!("harness error: unknown property {}", rf.property);
         return 2;
     };
+    if let Some((offset, stride)) = rf.slice {
+        let corpus = gen::load_corpus();
+        let mut idx = offset;
+        while idx <= rf.run {
+            let r = std::thread::scope(|s| s.spawn(|| run_one(prop.as_ref(), &corpus, rf.seed, idx, None)).join());
+            let Ok(r) = r else {
+                eprintln!("harness error: run {} panicked during the slice replay", idx);
+                return 2;
+            };
+            if let Some(v) = r.violation {
+                if idx == rf.run && v.signature == rf.violation.signature {
+                    if !quiet {
+                        println!("VIOLATION property={} replay={}", rf.property, path);
+                        println!("  reproduced: signature={} in run {} after re-executing its worker slice (offset {}, stride {})", v.signature, idx, offset, stride);
+                    }
+                    return 1;
+                }
+                eprintln!("replay mismatch: run {} violates {} (recorded: run {} {})", idx, v.signature, rf.run, rf.violation.signature);
+                return 2;
+            }
+            idx += stride;
+        }
+        if !quiet {
+            println!("replay: no violation (the recorded violation {} does not occur on this tree)", rf.violation.signature);
+        }
+        return 0;
+    }
     // crash replays: the history kills the process executing it, so it runs in a child
     let expect_crash = rf.violation.signature.ends_with("crash/worker_process_died");
     if expect_crash && args.get("inner").is_none() {
